@@ -27,6 +27,7 @@ import (
 	"strconv"
 	"strings"
 	"sync"
+	"syscall"
 	"time"
 
 	"github.com/tetratelabs/wazero"
@@ -37,8 +38,8 @@ const (
 	memBatch      = 16
 	batchBudget   = 64 << 20 // a batch below the smallest per-input budget needs no bisection
 	ulimitKB      = 3 << 20  // 3 GiB address space: a >= 2 GiB request dies at once instead of zeroing 2 GiB
-	hangLimit     = 60 * time.Second
-	execHangLimit = 20 * time.Second
+	hangCPU       = 20 * time.Second // CPU time one evaluation may consume before it counts as hung
+	hangWall      = 10 * time.Minute // wall-clock limit for an evaluation that consumes no CPU (blocked)
 )
 
 func budgetFor(n int) uint64 { return 64<<20 + 65536*uint64(n) }
@@ -99,35 +100,46 @@ func (c *childState) send(line string) {
 	c.outMu.Unlock()
 }
 
+func cpuTime() time.Duration {
+	var ru syscall.Rusage
+	if syscall.Getrusage(syscall.RUSAGE_SELF, &ru) != nil {
+		return 0
+	}
+	return time.Duration(ru.Utime.Nano() + ru.Stime.Nano())
+}
+
+// watchdog: the hang verdict is based on the CPU time the process has consumed since the evaluation in
+// flight started (a compile takes micro- to milliseconds of CPU when the property holds), not on wall
+// time: on a machine with a load average of several hundred a 60 s wall-clock limit fired on ordinary
+// evaluations. A blocked (CPU-less) evaluation is caught by a 10-minute wall-clock limit.
 func (c *childState) watchdog() {
 	last := c.prog.ticks.Load()
 	lastChange := time.Now()
+	cpuAtChange := cpuTime()
 	lastBeat := time.Now()
+	cpuLimit := hangCPU
+	if v, err := strconv.Atoi(os.Getenv("VERIF_C03_HANG_S")); err == nil && v > 0 {
+		cpuLimit = time.Duration(v) * time.Second // self-test of the watchdog path only
+	}
 	for {
 		time.Sleep(250 * time.Millisecond)
 		now := time.Now()
 		t := c.prog.ticks.Load()
 		if t != last {
-			last, lastChange = t, now
+			last, lastChange, cpuAtChange = t, now, cpuTime()
 		}
 		ph := int(c.prog.phase.Load())
-		if ph != phaseIdle {
-			limit := hangLimit
-			if v, err := strconv.Atoi(os.Getenv("VERIF_C03_HANG_S")); err == nil && v > 0 {
-				limit = time.Duration(v) * time.Second // self-test of the watchdog path only
-			}
+		if ph != phaseIdle && (cpuTime()-cpuAtChange > cpuLimit || now.Sub(lastChange) > hangWall) {
 			kind := "compile-hang"
 			if ph == phaseExec {
-				limit, kind = execHangLimit, "exec-hang"
+				kind = "exec-hang"
 			}
-			if now.Sub(lastChange) > limit {
-				js, _ := json.Marshal(struct {
-					Kind string
-					coords
-				}{kind, c.prog.coords()})
-				c.send("X " + string(js))
-				os.Exit(3)
-			}
+			js, _ := json.Marshal(struct {
+				Kind string
+				coords
+			}{kind, c.prog.coords()})
+			c.send("X " + string(js))
+			os.Exit(3)
 		}
 		if now.Sub(lastBeat) > 2*time.Second {
 			c.send("H")
@@ -815,7 +827,7 @@ func main() {
 		"seeds": len(p.seeds), "family_modules": len(p.family()), "feature_sets": len(featureSets), "raw_suffix_max": p.rawMax,
 		"inputs_per_category": perCat, "field_values": devNames, "pair_seed_max_bytes": p.pairSeedMax(),
 		"alloc_budget": "64 MiB + 65536 x len(input) per CompileModule", "child_address_space_KiB": ulimitKB,
-		"compile_hang_watchdog_s": hangLimit.Seconds(), "memory_limit_pages": memLimitPages,
+		"compile_hang_watchdog": "20 s of process CPU time or 10 min of wall time per evaluation", "memory_limit_pages": memLimitPages,
 	}
 	nf := 0
 	for si := range p.seeds {
